@@ -144,6 +144,17 @@ func ruleC17Srv(c *Ctx) {
 				continue
 			}
 			c.Guard(rule, fn, []ssa.Instruction{st}, "s.r = new instance", nil, Need{Desc: "the producing call succeeded (a failed call returns a nil instance)", Edge: successEdgesOfCall(fn, prod)})
+			// the new instance caches state read from the files (revision counter, chain) when it is
+			// built: building and swapping are one write-lock region, or I/O accepted in between is
+			// counted by the old instance only
+			c.Guard(rule, fn, []ssa.Instruction{prod}, "build new instance for s.r", nil, needWLock("server write lock held while the new instance is built"))
+			st := st
+			ws := Query{Fn: fn, Start: prod, StartHeld: true, Kill: lockOrUnlock, IsSite: func(in ssa.Instruction) bool { return in == st }}.Run()
+			if len(ws) == 0 {
+				c.OK(rule, key+" | built and swapped in one lock region", c.P.InstrPos(st), "no lock operation between the producing call and the store", true)
+			} else {
+				c.Bad(rule, key+" | built and swapped in one lock region", c.P.InstrPos(st), "the server lock is released between building the new Replica (which reads the revision counter and the chain from disk) and installing it: writes accepted in between are lost from its cached state", c.witness(ws[0]))
+			}
 		}
 	}
 	// Replica.Close: CLOSED unconditionally, before close()
